@@ -40,3 +40,23 @@ Lemma inline_frame_main_same : forall x rest,
 Proof.
   intros x rest. destruct x as [|p]; [right; reflexivity|left]. reflexivity.
 Qed.
+
+(* with no inode contribution from act, frames and framers a root relative path is left alone: it
+   depends on no framer / frame / actor / clone tag name *)
+Lemma no_inode_root_relative : forall nm (c : ctx N) x rest,
+  act_inode c = None -> fparts_of N clsN c = [] -> oparts_of N clsN c = [] -> clsN x = KOther ->
+  resolve_str nm c (x :: rest) = Ok (x :: rest).
+Proof.
+  intros nm c x rest Ha Hf Ho Hx.
+  assert (E : forall k, is N clsN k x = kwc_eqb KOther k). { intros k. unfold is. rewrite Hx. reflexivity. }
+  unfold resolve_str, resolve. rewrite E. cbn [kwc_eqb].
+  unfold prefix. rewrite Ha, Hf, Ho. cbn [app abs_or_framer starts_me]. rewrite (E KEmpty), (E KFramer), (E KMe). cbn [kwc_eqb orb app abs_or_framer]. rewrite (E KEmpty), (E KFramer). cbn [kwc_eqb orb].
+  unfold subst. rewrite E. cbn [kwc_eqb map_res]. f_equal.
+  unfold keep. rewrite flat_map_concat_map, map_map. simpl. f_equal.
+  induction rest; simpl; auto. f_equal. exact IHrest.
+Qed.
+
+(* a clone made by an aux verb WITHOUT a via clause has the empty inode whatever via the moot carries *)
+Lemma clone_without_via : forall moot_via, clone_inode moot_via ViaAbsent = [] /\
+  clone_inode moot_via ViaMine = moot_via /\ forall p, clone_inode moot_via (ViaGiven p) = p.
+Proof. intros. repeat split. Qed.
